@@ -325,9 +325,9 @@ func c06Batches(seed uint64, thorough bool) []c06Batch {
 	}
 
 	// (1) structure: every presence combination of hop/age/prev-node, every flag combination of one
-	// unknown block; five retries without waiting.
+	// unknown block; three retries without waiting.
 	{
-		b := c06Batch{name: "structure", algo: "epidemic", peers: 1, gaps: make([]time.Duration, 5), lastOk: true}
+		b := c06Batch{name: "structure", algo: "epidemic", peers: 1, gaps: make([]time.Duration, 3), lastOk: true}
 		for m := 0; m < 8; m++ {
 			for fl := 0; fl < 16; fl++ {
 				s := c06Base(r, nid())
@@ -356,8 +356,11 @@ func c06Batches(seed uint64, thorough bool) []c06Batch {
 				s.note = "structure"
 				b.scens = append(b.scens, s)
 			}
+			if m%2 == 1 {
+				out = append(out, b)
+				b.scens = nil
+			}
 		}
-		out = append(out, b)
 	}
 
 	// (2) hop count x limit through the Core: boundary grid + random pairs; two peers, 2 retries.
@@ -379,7 +382,7 @@ func c06Batches(seed uint64, thorough bool) []c06Batch {
 			s.hasPrev, s.prev = r.intn(2) == 0, "dtn://before/"
 			s.note = "hop"
 			b.scens = append(b.scens, s)
-			if len(b.scens) == 48 || i == len(pairs)-1 {
+			if len(b.scens) == 36 || i == len(pairs)-1 {
 				out = append(out, b)
 				b.scens = nil
 			}
@@ -387,9 +390,9 @@ func c06Batches(seed uint64, thorough bool) []c06Batch {
 	}
 
 	// (3) random structure, five retries, no waiting, two peers
-	for k := 0; k < 3*scale; k++ {
+	for k := 0; k < 4*scale; k++ {
 		b := c06Batch{name: "random", algo: "epidemic", peers: 1 + k%2, gaps: make([]time.Duration, 5), lastOk: true}
-		for i := 0; i < 40; i++ {
+		for i := 0; i < 20; i++ {
 			s := c06Base(r, nid())
 			c06RandomBlocks(r, &s)
 			if r.intn(4) == 0 {
@@ -421,7 +424,7 @@ func c06Batches(seed uint64, thorough bool) []c06Batch {
 		}
 		for rep := 0; rep < 2; rep++ {
 			b := c06Batch{name: fmt.Sprintf("time%d", k), algo: "epidemic", peers: 1 + rep, gaps: gaps, lastOk: true}
-			for i := 0; i < 30; i++ {
+			for i := 0; i < 20*scale; i++ {
 				s := c06Base(r, nid())
 				c06RandomBlocks(r, &s)
 				s.note = "time"
@@ -644,6 +647,14 @@ func TestVerifC06(t *testing.T) {
 	if scratch == "" {
 		scratch = t.TempDir()
 	}
+	// The store (badger, synchronous writes) is the whole cost of this harness. checks/C06.json may
+	// name a memory backed directory for the store directories; they are removed at the end.
+	if fast := os.Getenv("VERIF_C06_STOREDIR"); fast != "" {
+		if d, err := os.MkdirTemp(fast, "verif-c06-"); err == nil {
+			defer os.RemoveAll(d)
+			scratch = d
+		}
+	}
 	seed := verifSeed()
 	thorough := verifThorough()
 
@@ -700,9 +711,10 @@ func TestVerifC06(t *testing.T) {
 		idx   int
 		lines []string
 		err   error
+		took  time.Duration
 	}
 	results := make([]res, len(batches))
-	sem := make(chan struct{}, 8)
+	sem := make(chan struct{}, 16)
 	var wg sync.WaitGroup
 	for i := range batches {
 		only := 0
@@ -722,13 +734,15 @@ func TestVerifC06(t *testing.T) {
 			sem <- struct{}{}
 			defer func() { <-sem }()
 			dir := filepath.Join(scratch, fmt.Sprintf("c06-%d", i))
+			tb := time.Now()
 			lines, err := c06RunBatch(&batches[i], dir, only)
 			_ = os.RemoveAll(dir)
-			results[i] = res{i, lines, err}
+			results[i] = res{i, lines, err, time.Since(tb)}
 		}(i, only)
 	}
 	wg.Wait()
 	nFwd := 0
+	var slowest time.Duration
 	hist := map[string]int{}
 	for i, r := range results {
 		if r.err != nil {
@@ -739,11 +753,17 @@ func TestVerifC06(t *testing.T) {
 			nFwd++
 		}
 		hist[batches[i].name] += len(r.lines)
+		if r.took > slowest {
+			slowest = r.took
+		}
+		if os.Getenv("VERIF_C06_TIMING") != "" {
+			fmt.Fprintf(w, "# batch %d %s n=%d peers=%d took=%.1fs\n", i, batches[i].name, len(batches[i].scens), batches[i].peers, r.took.Seconds())
+		}
 	}
 	var hs []string
 	for k, v := range hist {
 		hs = append(hs, fmt.Sprintf("%s=%d", k, v))
 	}
 	sort.Strings(hs)
-	fmt.Fprintf(w, "# C06 seed=%d thorough=%v hc=%d fwd=%d batches=%d %s\n", seed, thorough, nHc, nFwd, len(batches), strings.Join(hs, " "))
+	fmt.Fprintf(w, "# C06 seed=%d thorough=%v hc=%d fwd=%d batches=%d %s slowest-batch=%.1fs\n", seed, thorough, nHc, nFwd, len(batches), strings.Join(hs, " "), slowest.Seconds())
 }
